@@ -50,8 +50,8 @@ struct C33 : vf::Engine {
         // run under the simulator as well, so that no real concurrency ever happens in this process
         Plan p; p.setcfg("sched_seed", 1); p.setcfg("policy", 0); p.setcfg("step_budget", 100000);
         th::begin(p);
-        { ParallelExecutor ex(2); PETask t(0, 0); ex.execute(t, 3);
-          ParallelWorkQueue q(2, 2); q.addTask(new QTask(0, 0)); q.flush(); }
+        // single-threaded on purpose: a warm-up that could itself trip a defect would mask the run that found it
+        { ParallelExecutor ex(1); PETask t(0, 0); ex.execute(t, 3); Parallel2DExecutor e2(3, 1); P2DTask t2(0, 0); e2.execute(t2, Parallel2DExecutor::FullMatrix); }
         Result r; th::end(p, r);
     }
 
